@@ -16,7 +16,7 @@ EXPLANATION = (
     'both failure edges returning Err; F2 trailer writer/reader agreement (same hash function, same width, same endianness, reader '
     'hashes exactly the bytes before the trailer, writer appends after serialisation finished); F3 the generic request decoder obtains '
     'its content only from that doorway and maps its error to an invalid-payload status, and no handler runs on a refused frame; '
-    'F5 every chunk read from the HTTP body is appended to the buffer that is decoded; F4 status transport routing (handler Err -> serialised status + non-OK code -> client Err of the decoded status). '
+    'F5.SEM the body collector (utils::to_aligned) interpreted against scripted bodies of 0..5 chunks and a body whose third read fails: Ok carries exactly the chunks delivered, each once, in order; a failed read is an error (F5, the structural form, is the fallback: every chunk read from the HTTP body is appended to the buffer that is decoded); F4 status transport routing (handler Err -> serialised status + non-OK code -> client Err of the decoded status). '
     'NOT decided: equality of observed and sent values (rkyv round trip), CRC-32 error-detection strength, hyper framing.')
 ASSUMPTIONS = ['rkyv/bytecheck validation is sound where used', 'CRC-32 detects all single-bit errors (property of the code, not checked)']
 
@@ -417,7 +417,10 @@ def check(ctx):
         check_F2(ctx, facts, cfg, reader_sem=bool(sem))
         check_F3(ctx, facts, cfg)
         check_F4(ctx, facts, cfg)
-        check_F5(ctx, facts, cfg)
+        # F5.SEM: the body collector interpreted against bodies of 0..5 chunks and a failing read (body_abs); subsumes F5
+        import body_abs
+        if not body_abs.check_collector(ctx, facts, 'C12.F5.SEM', cfg + '|'):
+            check_F5(ctx, facts, cfg)
     if ctx.tier == 'thorough':
         facts = ctx.facts('release')
         check_F1(ctx, facts, 'release')
